@@ -195,6 +195,11 @@ func (c *Ctx) valShapeD(v ssa.Value, d int) string {
 	if d > 5 {
 		return "…"
 	}
+	if shapeInline {
+		if s, ok := c.inlineShape(v, d); ok {
+			return s
+		}
+	}
 	switch x := v.(type) {
 	case *ssa.Const:
 		if x.Value == nil {
@@ -338,12 +343,16 @@ func (c *Ctx) boundsObligations(fns []*ssa.Function, bce map[string]bool, floor 
 					switch {
 					case fi.sortComparator(ins):
 						ok, tactic = true, "sort.Slice comparator contract"
+					case fi.sortComparatorFactory(ins):
+						ok, tactic = true, "sort.Slice comparator contract (comparator made by a factory from the sorted slice)"
 					case fi.glyphOpArity(ins):
 						ok, tactic = true, "GlyphOp arity invariant under the command-type case"
 					case fi.findSubmatch(ins):
 						ok, tactic = true, "FindSubmatch contract (1+NumSubexp elements when non-nil)"
 					case fi.monotoneCapacity(ins, mono):
 						ok, tactic = true, "monotone capacity of an append-only slot"
+					case fi.abduceEntryFacts(goals, facts) && fi.prove(goals, fi.factsAt(b, ins), 0):
+						ok, tactic = true, "fact engine, with a relation between the parameters shown at every call site"
 					}
 				}
 				_ = tactic
@@ -363,7 +372,8 @@ func (c *Ctx) boundsObligations(fns []*ssa.Function, bce map[string]bool, floor 
 				sort.Strings(fs)
 				fs = dedupSorted(fs)
 				c.rep.add(Obligation{Rule: "PANIC-BOUNDS", Func: fname, Construct: construct, Pos: c.pos(ins.Pos()), Status: stViolation, Kind: "undecided",
-					Detail: "cannot show " + desc + ": the index or slice expression may be out of range for some input", Facts: canonFacts(fs)})
+					Detail: "cannot show " + desc + ": the index or slice expression may be out of range for some input", Facts: canonFacts(fs),
+					Alias: c.aliasOf(construct, func() string { return c.exprOf(ins) })})
 			}
 		}
 	}
@@ -481,6 +491,7 @@ func newFuncInfo(fn *ssa.Function) *funcInfo {
 			}
 		}
 	}
+	fi.resultObjectLens()
 	return fi
 }
 
@@ -605,7 +616,8 @@ func (c *Ctx) allocObligation(fi *funcInfo, fname string, ins ssa.Instruction, n
 		fs = append(fs, strings.Replace(renderFact(f), " >= 0", " != 0", 1))
 	}
 	c.rep.add(Obligation{Rule: "PANIC-ALLOC", Func: fname, Construct: construct, Pos: c.pos(ins.Pos()), Status: stViolation, Kind: "undecided",
-		Detail: "the allocation size " + renderFact(t) + " is not shown to lie in [0, 2^24] nor to be bounded by the size of existing data: a hostile operand could make it negative (panic) or absurdly large", Facts: dedupSorted(fs)})
+		Detail: "the allocation size " + renderFact(t) + " is not shown to lie in [0, 2^24] nor to be bounded by the size of existing data: a hostile operand could make it negative (panic) or absurdly large", Facts: dedupSorted(fs),
+		Alias: c.aliasOf(construct, func() string { return what + "(" + c.valShape(n) + ")" })})
 }
 
 // growObligation: slices.Grow(s, n) panics for n < 0.
@@ -685,7 +697,7 @@ func (c *Ctx) assertObligation(fname string, x *ssa.TypeAssert) {
 		c.ok("PANIC-ASSERT", fname, construct, x.Pos(), "Interpreter.Resources holds only Dict values: written only by NewInterpreter with Dict literals, never boxed or stored elsewhere", "")
 		return
 	}
-	if c.assertEstablishedBySearch(x) {
+	if c.assertEstablishedBySearch(x) || c.assertBySearchPredicate(x) {
 		c.ok("PANIC-ASSERT", fname, construct, x.Pos(), "the element was found by a search whose predicate holds only behind a successful `, ok` assertion of the same map entry to this type; nothing is written in between", "")
 		return
 	}
@@ -1313,19 +1325,14 @@ func (c *Ctx) recursionGates(fns []*ssa.Function, reach map[*ssa.Function]bool) 
 			// open bodies) is dominated by a constant bound on the number of open bodies; nesting built
 			// by operators costs one operation per level and is bounded by the budget
 			nPush, nBounded := 0, 0
-			for _, g := range c.modFuncs {
-				eachInstr(g, func(ins ssa.Instruction) {
-					if st, ok := ins.(*ssa.Store); ok && isFieldAddr(st.Addr, ia.T, c.fld("intp.procStart")) {
-						if _, isCall := st.Val.(*ssa.Call); isCall {
-							nPush++
-							if k, ok := upperBoundConst(domConds(st.Block()), func(v ssa.Value) bool { return lenOfField(v, ia.T, c.fld("intp.procStart")) }); ok && k <= 10000 {
-								nBounded++
-							}
-						}
-					}
-				})
+			pushes, followed := c.slotPushes(ia.T, c.fld("intp.procStart"))
+			for _, site := range pushes {
+				nPush++
+				if k, ok := upperBoundConst(domConds(site.Block()), func(v ssa.Value) bool { return lenOfSlot(v, ia.T, c.fld("intp.procStart")) }); ok && k <= 10000 {
+					nBounded++
+				}
 			}
-			if !(nPush > 0 && nPush == nBounded) {
+			if !(followed && nPush > 0 && nPush == nBounded) {
 				break
 			}
 			if visitedSetGate(e.from, e.site) {
